@@ -153,7 +153,34 @@ def eval_history(case):
     return {"violations": viol, "outcome": "history", "evals": len(case["calls"])}
 
 
+def eval_table(case):
+    """Rows of build_pvt_gas: the tabulated z-factor must be the root for the row's own reduced state
+    (the table's temperature is deliberately not a whole number)."""
+    from bluebonnet.fluids import build_pvt_gas, gas  # noqa: PLC0415
+
+    g, T = case["gravity"], case["T"]
+    tab = build_pvt_gas({"N2": 0.0, "H2S": 0.0, "CO2": 0.0, "Gas Specific Gravity": g,
+                         "Reservoir Temperature (deg F)": T}, "dry gas", maximum_pressure=case["pmax"])
+    tpc, ppc = gas.pseudocritical_point_Sutton(g, gas.make_nonhydrocarbon_properties(0.0, 0.0, 0.0), "dry gas")
+    tr = (T + 459.67) / (tpc + 459.67)
+    viol, kinds = [], {}
+    for p, z in zip(np.asarray(tab["pressure"], dtype=float)[::case["stride"]], np.asarray(tab["z-factor"], dtype=float)[::case["stride"]]):
+        cls, r_pub, r_k1 = classify_point(float(z), tr, p / ppc)
+        kinds[cls] = kinds.get(cls, 0) + 1
+        if cls == "K1":
+            viol.append(V("z/root", f"(table row p={p}) Z = {z:.9g} is the root of the EOS with first coefficient A1*A2/Tr",
+                          case=dict(case, p=float(p)), observed=float(z), signature=K1_SIG))
+        elif cls != "ok":
+            viol.append(V("z/table-row-not-a-root", f"build_pvt_gas(gravity={g}, T={T}) row p={p}: z-factor {z:.9g} is not a "
+                          f"root for T_r={tr:.5f}, p_r={p / ppc:.5f} (residuals {r_pub:.3g} / {r_k1:.3g})",
+                          case=dict(case, p=float(p)), observed=float(z)))
+            break
+    return {"violations": viol, "outcome": "table", "evals": int(np.ceil(len(tab) / case["stride"]))}
+
+
 def evaluate(case):
+    if case["kind"] == "table":
+        return eval_table(case)
     return {"point": eval_point, "sweep": eval_sweep, "hy": eval_hy, "history": eval_history}[case["kind"]](case)
 
 
@@ -191,6 +218,8 @@ def cases(tier, seed):
         if sum(x == y for x, y in zip(a, b)) >= 2:
             out.append({"kind": "history", "calls": [list(a), list(b)]})
     out.append({"kind": "history", "calls": [list(c) for c in base + base[::-1]]})
+    for g, T in itertools.product([0.6, 0.9], [150.5, 287.25]):
+        out.append({"kind": "table", "gravity": g, "T": T, "pmax": 14000, "stride": 1 if thorough else 20})
     for tr in (1.05, 1.5, 3.0):
         out.append({"kind": "sweep", "tr": tr, "lo": 0.05, "hi": 30.0, "n": 600 if thorough else 300, "pc": 0})
     hts = np.arange(1.2, 3.0001, 0.01 if thorough else 0.05)
@@ -210,7 +239,7 @@ def run(ctx):
         "rule": "point lattice T_r x p_r x pseudocritical point + table-range rows + isotherm sweeps + "
                 "Hall-Yarbrough lattice, all enumerated; non-trivial = distinct returned Z with |Z-1| > 1e-3",
         "samples": samples_of(cs),
-        "by_kind": {k: sum(1 for c in cs if c["kind"] == k) for k in ("point", "sweep", "hy", "history")},
+        "by_kind": {k: sum(1 for c in cs if c["kind"] == k) for k in ("point", "sweep", "hy", "history", "table")},
     }
     return ctx.finish("exploration", cov, [
         "published DAK constants as transcribed in refmodels/dak.py; root tolerance 1e-6",
@@ -220,4 +249,5 @@ def run(ctx):
 
 
 def replay(case):
+    case = {k: v for k, v in case.items() if k != "p" or case.get("kind") != "table"}
     return evaluate(case)["violations"]
